@@ -17,6 +17,7 @@ import props_c07
 import props_c09
 import props_c19
 import props_c04
+import props_dgraph
 import vcheck
 from vcheck import Check, log
 
@@ -298,6 +299,12 @@ PROPS["C20"] = props_c20.SPEC
 PROPS["C19"] = props_c19.SPEC_C19
 PROPS["C14"] = props_c19.SPEC_C14
 PROPS["C04"] = props_c04.extend(PROPS["C04"])
+# the graph model has its own correspondence stream (real go.arcalot.io/dgraph vs Arca.Model.Dgraph); the theorems of C02 / C10 rest on it
+PROPS["C02"]["streams"].append(props_dgraph.S_DGRAPH)
+PROPS["C10"]["streams"].append(props_dgraph.S_DGRAPH)
+PROPS["C02"]["theorems"] += props_dgraph.DGRAPH_THEOREMS
+PROPS["C02"]["rule"] = PROPS["C02"].get("rule", "") + props_dgraph.DGRAPH_RULE
+PROPS["C10"]["rule"] = PROPS["C10"].get("rule", "") + props_dgraph.DGRAPH_RULE
 
 
 def setup():
